@@ -72,6 +72,12 @@ func c17Units(tier string) []Unit {
 			Alphabet: grp.ops(), Depth: depth, Budget: explore.Budget{Provides: 2, Decorates: 2, Invokes: 2, Rejected: 1}, Allowed: onceEach,
 			Monitors: []explore.Monitor{dryMonitor},
 		}})
+		soft := alpha{scopes: []int{0, 1}, ctors: []*uFunc{pMfl, fFl2}, decos: []*uFunc{dGmiss, dGpub, dG}, invokes: []*uFunc{iGs, iS1, iB, iD}}
+		units = append(units, Unit{Sc: &Scenario{
+			Name: fmt.Sprintf("dry/soft-flatten/defer=%v", def), Cfg: h.Config{Dry: true, Defer: def}, Prefix: prefixChild,
+			Alphabet: soft.ops(), Depth: depth, Budget: explore.Budget{Provides: 2, Decorates: 1, Invokes: 2, Rejected: 1}, Allowed: onceEach,
+			Monitors: []explore.Monitor{dryMonitor},
+		}})
 		as := alpha{scopes: []int{0, 1}, ctors: []*uFunc{kAasI, kAasII, kIplain, pCia}, export: true, decos: []*uFunc{dIA}, invokes: []*uFunc{qI, qII, qIn, iC}}
 		units = append(units, Unit{Sc: &Scenario{
 			Name: fmt.Sprintf("dry/as/defer=%v", def), Cfg: h.Config{Dry: true, Defer: def}, Prefix: prefixChild,
@@ -86,6 +92,9 @@ var (
 	fGmiss = u.F("fGmiss", "D", "A", u.Group("g")) // group member whose dependency D nobody provides
 	dG0    = u.F("dG0", "", "{[A]!1+g}")           // group decorator that does not consume the group
 	dGsoft = u.F("dGsoft", "{A*g~}", "{[A]!1+g}")  // group decorator with a soft view of the group
+	pMfl   = u.F("pMfl", "", "{B;[A]+g!2}")        // B plus two flattened members of g
+	dGmiss = u.F("dGmiss", "{A*g},C", "{[A]!1+g}") // group decorator with a dependency nobody provides
+	dGpub  = u.F("dGpub", "{A*g}", "{[A]!1+g},D")  // group decorator that also publishes D
 	pCia   = u.F("pCia", "IA", "C")                // constructor taking the interface positionally
 	dIA    = u.F("dIA", "IA", "IA")                // decorator of the interface key
 )
